@@ -468,7 +468,8 @@ impl Scenario for VaultScn {
         amts.sort();
         amts.dedup();
         let scripts: Vec<Vec<Step>> = if c07 {
-            vec![vec![Step::Repay(RepayKind::Exact)]]
+            // the second script calls the permissionless CollectProtocolFees from inside the loan callback
+            vec![vec![Step::Repay(RepayKind::Exact)], vec![Step::Collect, Step::Repay(RepayKind::Exact)]]
         } else {
             vec![vec![Step::Repay(RepayKind::Exact)], vec![Step::Repay(RepayKind::Plus1000)], vec![Step::Repay(RepayKind::Minus1)], vec![Step::Fail]]
         };
